@@ -69,7 +69,8 @@ def fProcess (cl : FClean) (ob : OSL) (chars : List Char) : Except Err (FClean √
     | .verify :: st => .ok ({ state := .cfs :: st, vc := [] }, ob)
     | _ => .ok (cl, ob)
 
-/-- fortran_file_source: logical lines (lines, text, isDirective) -/
+/-- fortran_file_source: logical lines (lines, text, isDirective); text assembled from statement lines is never a
+    directive (`physical_update(..., statement=True)`, the repair of F-C17-2) -/
 def fFileSource (text : String) : Except Err (List (List Nat √ó String √ó Bool)) := do
   let (clines, _, _) ‚Üê cFileSource text true
   let mut cl : FClean := {}
@@ -78,7 +79,7 @@ def fFileSource (text : String) : Except Err (List (List Nat √ó String √ó Bool))
   let mut out : List (List Nat √ó String √ó Bool) := []
   for src in clines do
     if src.cat == .cppDirective then
-      if cur.category != .blank then out := out ++ [(lines, String.ofList cur.parts, cur.category == .cppDirective)]
+      if cur.category != .blank then out := out ++ [(lines, String.ofList cur.parts, false)]
       cur := {}; lines := []
       out := out ++ [(src.lines, src.text, true)]
     else
@@ -87,9 +88,9 @@ def fFileSource (text : String) : Except Err (List (List Nat √ó String √ó Bool))
       if ob.category != .blank then lines := lines ++ src.lines
       cur := cur.join ob
       if cl.state.head? != some .cfs then
-        if cur.category != .blank then out := out ++ [(lines, String.ofList cur.parts, cur.category == .cppDirective)]
+        if cur.category != .blank then out := out ++ [(lines, String.ofList cur.parts, false)]
         cur := {}; lines := []
-  if cur.category != .blank then out := out ++ [(lines, String.ofList cur.parts, cur.category == .cppDirective)]
+  if cur.category != .blank then out := out ++ [(lines, String.ofList cur.parts, false)]
   if cl.state != [.top] then throw (.runtime "Parser must end at top level without 'relaxed' mode.")
   return out
 
